@@ -33,7 +33,20 @@ def assemble(rng, changes, k_fault, mutate):
         # drop leading description comments of the original change: keep them, they are harmless
         if k == k_fault:
             body, (li, col), kind = mutate(body)
+            # comment and blank lines INSIDE the change, before the faulty line (metavariable section included)
+            h = header_index(body)[0]
+            for _ in range(rng.randint(0, 3)):
+                pos = rng.randint(h + 1, li) if li > h else None
+                if pos is None:
+                    break
+                body = body[:pos] + [rng.choice(FILLER + [b""])] + body[pos:]
+                li += 1
             fault_at = (len(lines) + li + 1, col, kind)
+        else:
+            hs = header_index(body)
+            if len(hs) >= 2 and rng.random() < 0.5:
+                pos = rng.randint(hs[0] + 1, hs[1])
+                body = body[:pos] + [rng.choice(FILLER)] + body[pos:]
         lines += body
     return b"\n".join(lines) + b"\n", fault_at
 
@@ -146,7 +159,7 @@ def main():
             if fname.startswith(("unknown", "duplicate", "missing", "var-", "trailing", "too-", "number", "extra")):
                 ip = [(l, c) for (f, l, c) in pos if f == "my.patch"]
                 if ((line, col) not in mp) if col is not None else (not set(ip) & set(mp)):
-                    ck.mismatch("Meta/PosMap model predicts %s, gopatch reports %r (fault %s expected at %d:%d)" % (merrs, err[:160], fname, line, col),
+                    ck.mismatch("Meta/PosMap model predicts %s, gopatch reports %r (fault %s expected at %s:%s)" % (merrs, err[:160], fname, line, col),
                                 rep, "corr:meta (Model/Meta.v + PosMap.v vs parse/meta.go, engine/meta.go)")
     # nothing is rewritten when the patch is rejected
     root = vlib.scratch("c19")
